@@ -297,7 +297,7 @@ UPDATES = (None, {}, {"ID": ["u"]}, {"ID": ["u", "v"]}, {"ID": ["v", "u"]}, {"P"
 
 
 def value_options(thorough):
-    alpha = ("1", "10", "9", "a", "-3", "2.5") if thorough else ("1", "10", "9", "a")
+    alpha = ("1", "10", "9", "a", "2.5", "-3") if thorough else ("1", "10", "9", "a", "2.5")
     opts = [None, []]
     for n in (1, 2, 3) if thorough else (1, 2):
         if n == 3:
@@ -380,8 +380,8 @@ def unit_attrs(U):
                      "attributes of every interfeature == per-key sorted (numeric when numeric_sort and all values are numbers) union of the two neighbours' values, then update_attributes, then "
                      "several ID values joined by '-'; {} plus update_attributes when merge_attributes=False; nothing carried over from earlier pairs; inputs, update_attributes and database unchanged",
                      "per key in {ID, P, n}: all pairs of %d value options (absent, [], every ordered list of length <= %d over %d values incl. duplicates) x numeric_sort on/off, other keys drawn, "
-                     "third feature appended; %d update_attributes dicts x merge on/off x numeric on/off x ~170 option pairs x 4 geometries; %d rng lists of 2..6 features"
-                     % (len(opts), 3 if U.thorough else 2, 6 if U.thorough else 4, len(UPDATES), R),
+                     "third feature appended; %d update_attributes dicts x merge on/off x numeric on/off x %d option pairs x 4 drawn geometries; %d rng lists of 2..6 features"
+                     % (len(opts), 3 if U.thorough else 2, 6 if U.thorough else 5, len(UPDATES), len(samples) ** 2, R),
                      ck.cases, ck.fails, distinct=ck.cases)
 
 
@@ -547,11 +547,20 @@ def random_model(rng):
                 if s not in starts and (tid, x, 1) not in m.rel:
                     m.by_id(x)["attrs"]["Parent"].append(tid)
                     m.link(tid, x, 1)
-        if rng.random() < 0.15:      # an exon hanging directly on the gene (a level-1 child without exons of its own)
-            eid += 1
-            x = "x%d" % eid
-            m.add(x, seqid, 300, 310, gstrand, "exon", {"ID": [x], "Parent": [gid]})
-            m.link(gid, x, 1)
+        if rng.random() < 0.25:      # exons hanging directly on the gene (level-1 children without exons of their own)
+            for s in (300, 320)[:rng.randint(1, 2)]:
+                eid += 1
+                x = "x%d" % eid
+                m.add(x, seqid, s, s + 10, gstrand, "exon", {"ID": [x], "Parent": [gid]})
+                m.link(gid, x, 1)
+    if rng.random() < 0.3:           # a cluster above the genes: transcripts and exons are its level-2/3 descendants
+        m.add("cl", "c1", 1, 400, "+", "cluster", {"ID": ["cl"]})
+        for (p, c, l) in list(m.rel):
+            if p.startswith("g"):
+                m.link("cl", c, l + 1)
+        for f in m.feats:
+            if f["id"].startswith("g"):
+                m.link("cl", f["id"], 1)
     if rng.random() < 0.4:           # an mRNA without a gene: selected by parent_featuretype only
         m.add("orph", "c1", 1, 400, "+", "mRNA", {"ID": ["orph"]})
         pos = 5
@@ -568,7 +577,9 @@ SELECTIONS = (({}, "gene", None),
               ({"grandparent_featuretype": "gene"}, "gene", None),
               ({"grandparent_featuretype": None, "parent_featuretype": "mRNA"}, None, "mRNA"),
               ({"grandparent_featuretype": None, "parent_featuretype": "ncRNA"}, None, "ncRNA"),
-              ({"grandparent_featuretype": "locus"}, "locus", None))
+              ({"grandparent_featuretype": "locus"}, "locus", None),
+              ({"grandparent_featuretype": "cluster"}, "cluster", None),
+              ({"grandparent_featuretype": None, "parent_featuretype": "gene"}, None, "gene"))
 BAD_SELECTIONS = ({"grandparent_featuretype": "gene", "parent_featuretype": "mRNA"},
                   {"parent_featuretype": "mRNA"},
                   {"grandparent_featuretype": None},
@@ -712,7 +723,7 @@ def run_models(U, what):
         db = m.build(rng)
         opts = []
         for sel in SELECTIONS:
-            if sel[1] == "locus" and not any(f["ft"] == "locus" for f in m.feats) and rng.random() < 0.7:
+            if sel[1] in ("locus", "cluster") and not any(f["ft"] == sel[1] for f in m.feats) and rng.random() < 0.7:
                 continue
             opts.append((sel, "exon" if rng.random() < 0.8 else "CDS", rng.choice(("intron", "intron", "my_intron", None)),
                          rng.random() < 0.8, rng.random() < 0.5))
@@ -746,8 +757,8 @@ def unit_introns(U):
                      "create_introns(...) yields, for every selected transcript, exactly interfeatures(level-1 children of exon_featuretype ordered by start) "
                      "(ordered for one transcript, as a multiset over several; ties in start in any order); both-or-neither of grandparent/parent_featuretype raises ValueError; database unchanged",
                      "every set of 1..%d distinct exons over the intervals within 1..%d (k=4 sampled 20%% in the thorough tier), one transcript on + and on -, rows inserted in rng order, default call plus one drawn "
-                     "option set; %d rng databases (1-3 genes/loci on 2 seqids, 1-3 transcripts mRNA/ncRNA incl. strand '.', 0-5 exons/CDS with gaps -2..30, shared exons, exon directly under a gene, "
-                     "orphan mRNA) x 5 selection modes x exon_featuretype exon/CDS x new_featuretype intron/custom/None x merge_attributes x numeric_sort drawn; one GFF3 text through create_db x 80 option sets"
+                     "option set; %d rng databases (1-3 genes/loci on 2 seqids, 1-3 transcripts mRNA/ncRNA incl. strand '.', 0-5 exons/CDS with gaps -2..30, shared exons, exons directly under a gene, a cluster above the genes, "
+                     "orphan mRNA) x 7 selection modes x exon_featuretype exon/CDS x new_featuretype intron/custom/None x merge_attributes x numeric_sort drawn; one GFF3 text through create_db x 112 option sets"
                      % (kmax, top, R),
                      cases, fails, distinct=nmodels)
 
@@ -759,7 +770,7 @@ def unit_splice(U):
                      "create_splice_sites(...) yields, as a multiset, for every intron [s,e] of every selected transcript the sites [s,s+1] and [e-1,e], typed five/three_prime_cis_splice_site by "
                      "(side, transcript strand) ('splice_site' for strand '.'), stranded and attributed like the intron with ID = [type + '_' + intron ID]; ValueError for both-or-neither; database unchanged",
                      "every set of 1..%d distinct exons over the intervals within 1..%d, one transcript on + and on -; %d rng databases (as C15.bounded.introns; exon strands may differ from the transcript's) "
-                     "x 5 selection modes x exon_featuretype exon/CDS x numeric_sort drawn; one GFF3 text through create_db" % (kmax, top, R),
+                     "x 7 selection modes x exon_featuretype exon/CDS x numeric_sort drawn; one GFF3 text through create_db" % (kmax, top, R),
                      cases, fails, distinct=nmodels)
     U.bounded_result("C15.bounded.splice_no_merge",
                      "create_splice_sites(merge_attributes=False) yields the same two-base sites and labels with empty attributes",
